@@ -2,6 +2,7 @@ CONSTANTS
   MaxSlot = 0
   MaxFiles = 4
   MaxPerChunk = 3
+  MaxEmpty = 0
   DBs <- GenDBs
   Points <- GenPoints
 INIT Init
